@@ -395,7 +395,7 @@ def _main(a, t0):
     if bounded:
         for kid in bounded.get("known_ids", []):
             for f in bnd_findings:
-                if f["id"] == kid and not any(kid in l for l in known_lines):
+                if f["id"] == kid and f.get("property") == prop and not any(kid in l for l in known_lines):
                     known_lines.append(f"KNOWN-FINDING: property={prop} {f['id']} {f['what']}")
     level = cfg.get("level", "other")
     ev = {
